@@ -2,7 +2,8 @@
    Only statements; every proof is `exact <lemma>`. *)
 From Coq Require Import List ZArith QArith Qcanon Bool Arith.
 From Dimod Require Import Base.Util Model.Poly Model.HPoly Proofs.PolyFacts Proofs.HPolyFacts.
-From Dimod Require Model.Adj Proofs.AdjDense.
+From Dimod Require Model.Adj Proofs.AdjDense Model.FixPy Proofs.FixPyFacts.
+From Dimod Require Model.Expr Model.FixCopy Proofs.FixCopyFacts Proofs.FixCopyBack Proofs.ExprFacts Proofs.CqmSim.
 Import ListNotations.
 Open Scope Qc_scope.
 
@@ -68,6 +69,148 @@ Theorem C03_adjacency_substitute_variable_energy :
     Adj.energy_adj m (fun i => if (i =? v)%nat then k * s i + c else s i).
 Proof. exact AdjDense.energy_substitute_variable_adj. Qed.
 Print Assumptions C03_adjacency_substitute_variable_energy.
+
+(* ---------- the generic Python path views/quadratic.py:fix_variable(s) (deepening round) ----------
+   for each neighbour add_linear(u, value*bias) - self-loop included -, offset += value*get_linear(v),
+   remove_variable(v): same energy as the specification, hence the same coefficients *)
+Theorem C03_py_fix_variable_energy :
+  forall v a p s, energy (FixPy.py_fix_variable v a p) s = energy p (upd s v a).
+Proof. exact FixPyFacts.py_fix_variable_energy. Qed.
+Print Assumptions C03_py_fix_variable_energy.
+
+Theorem C03_py_fix_variable_coefficients :
+  forall v a p,
+    p_off (FixPy.py_fix_variable v a p) = p_off (fix_variable v a p)
+    /\ (forall x, lin_coeff (p_lin (FixPy.py_fix_variable v a p)) x = lin_coeff (p_lin (fix_variable v a p)) x)
+    /\ (forall x y, quad_coeff (p_quad (FixPy.py_fix_variable v a p)) x y
+                    = quad_coeff (p_quad (fix_variable v a p)) x y).
+Proof. exact FixPyFacts.py_fix_variable_coeffs. Qed.
+Print Assumptions C03_py_fix_variable_coefficients.
+
+Theorem C03_py_fix_variable_absent :
+  forall v a p,
+    (forall t, In t (p_lin (FixPy.py_fix_variable v a p)) -> fst t <> v)
+    /\ (forall t, In t (p_quad (FixPy.py_fix_variable v a p)) -> fst (fst t) <> v /\ snd (fst t) <> v).
+Proof. exact FixPyFacts.py_fix_variable_absent. Qed.
+Print Assumptions C03_py_fix_variable_absent.
+
+Theorem C03_py_fix_variables_energy :
+  forall fs p s,
+    energy (FixPy.py_fix_variables fs p) s = energy p (fold_right (fun f acc => upd acc (fst f) (snd f)) s fs).
+Proof. exact FixPyFacts.py_fix_variables_energy_value. Qed.
+Print Assumptions C03_py_fix_variables_energy.
+
+(* the comparison the check evaluates on the observations is implied for every input *)
+Theorem C03_py_fix_variables_coeff_eqb :
+  forall n fs p, poly_coeff_eqb n (FixPy.py_fix_variables fs p) (fix_variables fs p) = true.
+Proof. exact FixPyFacts.py_fix_variables_coeff_eqb. Qed.
+Print Assumptions C03_py_fix_variables_coeff_eqb.
+
+(* ---------- the COPYING path constrained_quadratic_model.h fix_variables / fix_variables_expr
+   (term-by-term rebuild over the surviving, re-indexed variables) on the index-level expression model ---------- *)
+Theorem C03_cqm_fix_copy_wellformed :
+  forall (n : nat) (vt' : nat -> vartype) (fs : list (nat * Qc)) (src : Expr.mexpr),
+    FixCopyFacts.FixOk n fs ->
+    ExprFacts.ExprInv (n - length fs)
+      (FixCopy.fix_variables_expr vt' src (FixCopy.old_to_new_of n (map fst fs)) (FixCopy.assignments_of n fs)).
+Proof. exact FixCopyFacts.fix_copy_inv. Qed.
+Print Assumptions C03_cqm_fix_copy_wellformed.
+
+(* the rebuilt expression is the specification Poly.fix_variables, re-indexed to the new model *)
+Theorem C03_cqm_fix_copy_is_spec :
+  forall (n : nat) (vt' : nat -> vartype) (fs : list (nat * Qc)) (src : Expr.mexpr) (s' : sample),
+    ExprFacts.ExprInv n src -> FixCopyFacts.FixOk n fs -> respects vt' s' ->
+    energy (Expr.abs_expr (FixCopy.fix_variables_expr vt' src (FixCopy.old_to_new_of n (map fst fs)) (FixCopy.assignments_of n fs))) s' =
+    energy (relabel (FixCopy.new_index (map fst fs)) (fix_variables fs (Expr.abs_expr src))) s'.
+Proof. exact FixCopyFacts.fix_copy_spec. Qed.
+Print Assumptions C03_cqm_fix_copy_is_spec.
+
+(* whole model: objective and every constraint at every (domain-respecting) sample of the new model have the
+   energy of the original at the sample extended by the fixed values; sense, rhs, weight, penalty are copied;
+   the new model is well formed *)
+Theorem C03_cqm_fix_copy_energy :
+  forall (fs : list (nat * Qc)) (q : Expr.mcqm),
+    ExprFacts.CqmInv q -> FixCopyFacts.FixOk (length (Expr.m_info q)) fs ->
+    let n := length (Expr.m_info q) in
+    let q' := FixCopy.cqm_fix_variables_copy fs q in
+    let L := FixCopy.lift_sample (FixCopy.old_to_new_of n (map fst fs)) (FixCopy.assignments_of n fs) in
+    ExprFacts.CqmInv q' /\
+    (forall s' : sample, respects (FixCopy.vt_of_info (Expr.m_info q')) s' ->
+       energy (Expr.abs_expr (Expr.m_obj q')) s' = energy (Expr.abs_expr (Expr.m_obj q)) (L s')) /\
+    Forall2 (fun k' k : Expr.mcon =>
+               (forall s' : sample, respects (FixCopy.vt_of_info (Expr.m_info q')) s' ->
+                  energy (Expr.abs_expr (Expr.mc_e k')) s' = energy (Expr.abs_expr (Expr.mc_e k)) (L s')) /\
+               FixCopyFacts.con_attrs k' = FixCopyFacts.con_attrs k) (Expr.m_cons q') (Expr.m_cons q).
+Proof. exact FixCopyFacts.cqm_fix_copy_energy. Qed.
+Print Assumptions C03_cqm_fix_copy_energy.
+
+(* the in-place path issued as the Cython layer does (each label looked up in the CURRENT model, i.e. with
+   shifted indices) is the same specification *)
+Theorem C03_cqm_fix_inplace_is_spec :
+  forall (fs : list (nat * Qc)) (n : nat) (e : Expr.mexpr),
+    ExprFacts.ExprInv n e -> FixCopyFacts.FixOk n fs ->
+    ExprFacts.ExprInv (n - length fs) (FixCopyFacts.inplace_expr (FixCopy.shift_fixings fs) e) /\
+    CqmSim.peq (Expr.abs_expr (FixCopyFacts.inplace_expr (FixCopy.shift_fixings fs) e))
+               (relabel (FixCopy.new_index (map fst fs)) (fix_variables fs (Expr.abs_expr e))).
+Proof. exact FixCopyFacts.fix_inplace_spec. Qed.
+Print Assumptions C03_cqm_fix_inplace_is_spec.
+
+(* the two separate implementations agree, for any list of distinct fixings: whole model ... *)
+Theorem C03_fix_paths_agree :
+  forall (fs : list (nat * Qc)) (q : Expr.mcqm),
+    ExprFacts.CqmInv q -> FixCopyFacts.FixOk (length (Expr.m_info q)) fs ->
+    let c := FixCopy.cqm_fix_variables_copy fs q in
+    let i := FixCopy.cqm_fix_variables_inplace fs q in
+    (forall s' : sample, respects (FixCopy.vt_of_info (Expr.m_info c)) s' ->
+       energy (Expr.abs_expr (Expr.m_obj c)) s' = energy (Expr.abs_expr (Expr.m_obj i)) s') /\
+    Forall2 (fun kc ki : Expr.mcon =>
+               (forall s' : sample, respects (FixCopy.vt_of_info (Expr.m_info c)) s' ->
+                  energy (Expr.abs_expr (Expr.mc_e kc)) s' = energy (Expr.abs_expr (Expr.mc_e ki)) s') /\
+               FixCopyFacts.con_attrs kc = FixCopyFacts.con_attrs ki) (Expr.m_cons c) (Expr.m_cons i).
+Proof. exact FixCopyFacts.fix_paths_agree. Qed.
+Print Assumptions C03_fix_paths_agree.
+
+(* ... and coefficient-wise per expression (no BINARY/SPIN self-loop among the survivors, which a valid
+   expression never has: the copy path would fold it, the in-place path would not) *)
+Theorem C03_fix_paths_same_coefficients :
+  forall (n : nat) (vt' : nat -> vartype) (fs : list (nat * Qc)) (src : Expr.mexpr),
+    ExprFacts.ExprInv n src -> FixCopyFacts.FixOk n fs -> FixCopyFacts.NoFoldLoops n vt' fs src ->
+    let c := Expr.abs_expr (FixCopy.fix_variables_expr vt' src (FixCopy.old_to_new_of n (map fst fs)) (FixCopy.assignments_of n fs)) in
+    let i := Expr.abs_expr (FixCopyFacts.inplace_expr (FixCopy.shift_fixings fs) src) in
+    p_off c = p_off i /\
+    (forall x : nat, lin_coeff (p_lin c) x = lin_coeff (p_lin i) x) /\
+    (forall x y : nat, quad_coeff (p_quad c) x y = quad_coeff (p_quad i) x y).
+Proof. exact FixCopyFacts.fix_paths_same_coefficients. Qed.
+Print Assumptions C03_fix_paths_same_coefficients.
+
+Theorem C03_cqm_fix_copy_coefficients :
+  forall (n : nat) (vt' : nat -> vartype) (fs : list (nat * Qc)) (src : Expr.mexpr),
+    ExprFacts.ExprInv n src -> FixCopyFacts.FixOk n fs -> FixCopyFacts.NoFoldLoops n vt' fs src ->
+    let c := Expr.abs_expr (FixCopy.fix_variables_expr vt' src (FixCopy.old_to_new_of n (map fst fs)) (FixCopy.assignments_of n fs)) in
+    let spec := relabel (FixCopy.new_index (map fst fs)) (fix_variables fs (Expr.abs_expr src)) in
+    p_off c = p_off spec /\
+    (forall x : nat, lin_coeff (p_lin c) x = lin_coeff (p_lin spec) x) /\
+    (forall x y : nat, quad_coeff (p_quad c) x y = quad_coeff (p_quad spec) x y) /\
+    (forall m : nat, poly_coeff_eqb m c spec = true).
+Proof. exact FixCopyFacts.fix_copy_coefficients. Qed.
+Print Assumptions C03_cqm_fix_copy_coefficients.
+
+(* every add_quadratic_back issued by the rebuild (lower-triangle iteration of the source, strictly monotone
+   re-indexing of the survivors) satisfies its ordering precondition at the moment it is issued; hence the
+   rebuilt adjacency structure satisfies the invariant and add_quadratic_back acts as add_quadratic *)
+Theorem C03_fix_copy_back_precondition_holds :
+  forall (keep : nat -> option nat) (src dst : Adj.qm),
+    Adj.Inv src -> Adj.Inv dst -> (forall x : nat, Adj.nb dst x = []) ->
+    FixCopyBack.mono_keep keep -> (forall a ka : nat, keep a = Some ka -> (ka < Adj.nvars dst)%nat) ->
+    FixCopyBack.calls_ok (FixCopy.back_calls keep src) dst /\
+    FixCopy.rebuild keep src dst = FixCopy.rebuild_add keep src dst /\ Adj.Inv (FixCopy.rebuild keep src dst).
+Proof. exact FixCopyBack.fix_copy_back_pre_holds. Qed.
+Print Assumptions C03_fix_copy_back_precondition_holds.
+
+Theorem C03_lower_iteration_is_the_polynomial :
+  forall m : Adj.qm, Adj.Inv m -> FixCopy.lower_iter m = p_quad (Adj.abs m).
+Proof. exact FixCopyBack.lower_iter_is_abs_quad. Qed.
+Print Assumptions C03_lower_iteration_is_the_polynomial.
 
 (* non-vacuity: 3 i^2 + 2 i + 5 i j + j with i := 2 is 49 at j = 3 *)
 Example C03_example :
